@@ -118,6 +118,13 @@ def explore(chk):
             docs += [("scc", "Scenarist_SCC V1.0\n\n00:00:01:00\t94ae 9420 9152 %s 942f\n\n00:00:03:00\t942c\n" % wd("UP")),
                      ("scc", "Scenarist_SCC V1.0\n\n00:00:01:00\t94ae 9420 %s 942f\n\n00:00:03:00\t942c\n" % wd("ok"))]
             ops += [("read", len(docs) - 2, True), ("read", len(docs) - 1, True)]
+            # a roll-up document read with simulate_roll_up=True, then with default options on the same reader object: an option
+            # of one call is no business of the next
+            ru = ("Scenarist_SCC V1.0\n\n00:00:01;00\t9426 9426 94ad 94ad 9470 9470 %s\n\n00:00:03;00\t94ad 94ad 9470 9470 %s\n\n"
+                  "00:00:05;00\t94ad 94ad 9470 9470 %s\n\n00:00:07;00\t94ad 94ad 9470 9470 %s\n\n00:00:09;00\t94ad 94ad 942c 942c\n"
+                  % (wd("Hi"), wd("yo"), wd("ok"), wd("no")))
+            docs.append(("scc", ru))
+            ops += [("read", len(docs) - 1, True, {"simulate_roll_up": True}), ("read", len(docs) - 1, True, {}), ("read", len(docs) - 1, False, {"simulate_roll_up": True})]
             if (h // 5) % 2:
                 # a document the reader rejects (a row of 34 characters), then a good one on the same reader object
                 bad = "Scenarist_SCC V1.0\n\n00:00:01:00\t94ae 9420 9440 " + " ".join(["c1c2"] * 17) + " 942f\n\n00:00:04:00\t942c\n"
@@ -147,7 +154,7 @@ def explore(chk):
         histories.append((docs, ops, init))
         for o in ops:
             if o[0] == "read":
-                kw = {"offset": rng.choice([0, 0, 1, 2])} if docs[o[1]][0] == "scc" else {}
+                kw = dict(o[3]) if len(o) > 3 else ({"offset": rng.choice([0, 0, 1, 2])} if docs[o[1]][0] == "scc" else {})
                 o_kw.append(kw)
                 jobs.append({"op": "read", "kind": docs[o[1]][0], "doc": docs[o[1]][1], "kwargs": kw, "init": init.get(docs[o[1]][0], {})})
     # documents whose reading goes through sets / dicts keyed by strings, read under sixteen hash seeds: an order that leaks
@@ -190,7 +197,7 @@ def explore(chk):
         trace = []
         for o in ops:
             if o[0] == "read":
-                _, di, reuse = o
+                di, reuse = o[1], o[2]
                 fmt, doc = docs[di]
                 if reuse:
                     rd = readers.setdefault(fmt, setbuild.make_reader(fmt, **init.get(fmt, {})))
